@@ -243,6 +243,47 @@ def check_object(ctx, spec, obj, tol, where):
                   max(tol, 1e-9) * 50)
 
 
+def check_observed(ctx, spec, obj, tol, where):
+    """the same invariant at the documented observation points (get_edges,
+    ideal_endpoint_coords): what the accessor hands out is what the primary data says now -
+    an accessor that remembers an earlier answer is caught here"""
+    P = np.asarray(obj.proj_data)
+    Pr = (np.real(P) if np.iscomplexobj(P) else P).astype(float)
+    shape = P.shape[:P.ndim - len(spec.unit)]
+    if spec.name in ("hpolygon", "ppolygon"):
+        ed = obj.get_edges()
+        E = np.asarray(ed.proj_data)
+        E = (np.real(E) if np.iscomplexobj(E) else E).astype(float)
+        ctx.check(E.shape == shape + (spec.k, 2, spec.n + 1), "get_edges(): shape",
+                  where=where, got=E.shape)
+        ctx.small("get_edges(): edge i starts at vertex i (%s)" % where,
+                  proj_dist(E[..., 0, :], Pr), max(tol, 1e-9))
+        ctx.small("get_edges(): edge i ends at vertex i+1 (%s)" % where,
+                  proj_dist(E[..., 1, :], np.roll(Pr, -1, axis=-2)), max(tol, 1e-9))
+        if spec.name == "hpolygon":
+            got = np.asarray(ed.ideal_endpoint_coords("klein"), dtype=float)
+            w = ideal_endpoints_of(E)
+            want = w[..., 1:] / w[..., :1]
+            d1 = np.abs(got - want).max(axis=(-1, -2))
+            d2 = np.abs(got - want[..., ::-1, :]).max(axis=(-1, -2))
+            ctx.small("get_edges().ideal_endpoint_coords() are the ideal points of the "
+                      "current edges (%s)" % where, np.minimum(d1, d2), max(tol, 1e-7) * 30)
+        vs = obj.get_vertices()
+        ctx.close("get_vertices() returns the current vertices (%s)" % where,
+                  np.asarray(vs.proj_data), P, rtol=0, atol=0)
+    elif spec.name == "segment":
+        got = np.asarray(obj.ideal_endpoint_coords("klein"), dtype=float)
+        w = ideal_endpoints_of(Pr)
+        want = w[..., 1:] / w[..., :1]
+        d1 = np.abs(got - want).max(axis=(-1, -2))
+        d2 = np.abs(got - want[..., ::-1, :]).max(axis=(-1, -2))
+        ctx.small("ideal_endpoint_coords() are the ideal points of the current line (%s)" %
+                  where, np.minimum(d1, d2), max(tol, 1e-7) * 30)
+        ep = np.asarray(obj.get_endpoints().proj_data)
+        ctx.close("get_endpoints() returns the current endpoints (%s)" % where, ep, P, rtol=0,
+                  atol=0)
+
+
 def klein_of(P):
     P = np.asarray(P)
     P = np.real(P).astype(float) if np.iscomplexobj(P) else P.astype(float)
@@ -296,6 +337,15 @@ def run_history(case, ctx):
                 ctx.check(P0.shape == P1.shape, "query %s keeps the shape" % what)
                 ctx.small("query %s does not move the basepoint" % what,
                           proj_dist(np.real(P1[..., 0, :]), np.real(P0[..., 0, :])), e.tol)
+                # the second stored row (an ambient vector whose Minkowski projection is the
+                # direction) may be rescaled by a positive factor, nothing else: a query that
+                # replaced it by its projection would change the point of projective space
+                # that the row - and a caller's array sharing its memory - represents
+                v0, v1 = np.real(P0[..., 1, :]), np.real(P1[..., 1, :])
+                ctx.small("query %s does not move the stored vector row (as a projective "
+                          "point)" % what, proj_dist(v1, v0), max(e.tol, 1e-12) * 10)
+                ctx.check(np.all(np.sum(v0 * v1, axis=-1) > 0),
+                          "query %s keeps the sign of the stored vector row" % what)
             else:
                 k1 = klein_of(e.obj.proj_data)
                 ctx.check(k0.shape == k1.shape, "query %s keeps the shape" % what)
@@ -306,6 +356,10 @@ def run_history(case, ctx):
             if spec.name == "tangent":
                 ctx.small("caller's array still represents the same basepoints (%s)" % what,
                           proj_dist(arr[..., 0, :], priv[..., 0, :]), 1e-12)
+                ctx.small("caller's array still holds the same vector row up to a positive "
+                          "factor (%s)" % what, proj_dist(arr[..., 1, :], priv[..., 1, :]), 1e-11)
+                ctx.check(np.all(np.sum(arr[..., 1, :] * priv[..., 1, :], axis=-1) > 0),
+                          "caller's vector row keeps its sign (%s)" % what)
             else:
                 ctx.close("caller's array still represents the same points (%s)" % what,
                           klein_of(arr), klein_of(priv), rtol=0, atol=1e-11)
@@ -488,6 +542,14 @@ def run_history(case, ctx):
         for idx_e, e in enumerate(pool):
             check_object(ctx, spec, e.obj, e.tol, "after step %d (%s), pool[%d]" %
                          (t, op, idx_e))
+            # in half of the histories also read through the accessors after every step
+            # (in the other half an accessor is only ever called by a q_* step, so that a
+            # defect needing a *first* call late in the history is reachable too)
+            if case.get("observe"):
+                check_observed(ctx, spec, e.obj, e.tol, "after step %d (%s), pool[%d]" %
+                               (t, op, idx_e))
+    if case.get("observe"):
+        ctx.label("accessors-read-every-step")
     ctx.label("cls=" + name, "n=%d" % n)
     if max_rank >= 1:
         ctx.label("composite")
@@ -600,7 +662,7 @@ def step_strategy():
 def history_case(cls_names, max_steps):
     return st.fixed_dictionaries(dict(
         cls=st.sampled_from(cls_names), n=st.sampled_from([2, 2, 3]),
-        k=st.sampled_from([3, 4]),
+        k=st.sampled_from([3, 4]), observe=st.booleans(),
         steps=st.lists(step_strategy(), min_size=1, max_size=max_steps)))
 
 
@@ -632,7 +694,7 @@ def exhaustive_histories(tier):
                 # always end with a read of the derived data
                 steps.append(dict(op=OPS.index("q_circle"), i=len(seq), j=0, k=0,
                                   vals=FIXED_VALS[0]))
-                cases.append(dict(cls=cls, n=2, k=3, steps=steps))
+                cases.append(dict(cls=cls, n=2, k=3, steps=steps, observe=True))
         out.append(("all op sequences of depth <= %d on %s (composite (2,2) start)" %
                     (depth, cls), cases))
     return out
